@@ -321,6 +321,17 @@ func c11CheckImage(run *c11Run, k int) (string, string, string) {
 		inheritedKey = "head-inconsistent-without-crash:" + bad
 		inheritedDesc = fmt.Sprintf("%s: the reported zone head (height %d) does not describe the stored state, and the node that never crashed has the same head with the same disagreement: %v", where, head.NumberU64(2), err)
 	}
+	// "a head whose state is fully present": every node of the account trie, of every storage trie and
+	// every code blob of the head's state must be readable from what survived (the restarted node has
+	// no dirty trie cache to hide a node that never reached the disk)
+	var werr error
+	var nodes int
+	if perr := vx.Guard(func() { nodes, werr = n.VWalkState(head) }); perr != "" {
+		return "head-state-walk:panic:" + vx.PanicSite(perr), where + ": walking the head's state panicked: " + perr, nextClass
+	}
+	if werr != nil {
+		return "head-state-incomplete:before-" + nextClass, fmt.Sprintf("%s: after restart the state of the reported zone head (height %d) is not fully present: after %d nodes: %v", where, head.NumberU64(2), nodes, werr), nextClass
+	}
 	for i := step; i < len(run.plan.steps); i++ {
 		var derr error
 		if perr := vx.Guard(func() { derr = c11Do(n, run.plan.steps[i]) }); perr != "" {
